@@ -164,6 +164,8 @@ def make_transport_class():
             self.connected = True
 
         async def send_frame(self, frame):
+            if self.log is not None:
+                self.log.append(('send-begin', self.name))     # the sender has taken this frame off the queue
             while self.gated and self._permits == 0:
                 self._waiter = asyncio.get_event_loop().create_future()
                 await self._waiter
